@@ -515,8 +515,10 @@ package nbhttp
 //@   assigns everything
 //@   at before:flushResponse#1 assert after: gServed == old(gServed) + 1 && arg_res == response && arg_parser == parser   // prop C10
 //@   at before:flushResponse#1 assume handler: response.request != nil && response.Parser != nil && ResOwn(response) && (!response.headEncoded ==> response.buffer == nil)
+// connHas(r, tok, n): one of the first n Connection values of r is tok once spaces are trimmed and letters lowered
+//@ pred connHas(r *http.Request, tok string, n int) := exists q int {mem(r.Header["Connection"], q)} :: off(r.Header["Connection"]) <= q && q < off(r.Header["Connection"]) + n && lower(trimsp(mem(r.Header["Connection"], q))) == tok
 //@ func (*ServerProcessor).OnComplete
-//@   props C10
+//@   props C10 C07
 //@   safety nil
 //@   requires p != nil && parser != nil && parser.Engine != nil && parser.Conn != nil && parser.Execute != nil && parser.Engine.Handler != nil && (p.request != nil ==> p.request.URL != nil)
 //@   ensures once: gExec == old(gExec) + ite(old(p.request) != nil, 1, 0)   // prop C10
@@ -526,7 +528,11 @@ package nbhttp
 //@   at before:NewResponse#1 assert persist0: request.ProtoMajor < 1 ==> request.Close   // prop C10
 //@   at before:NewResponse#1 assert persist10: request.ProtoMajor == 1 && request.ProtoMinor == 0 && len(request.Header["Connection"]) == 0 ==> request.Close   // prop C10
 //@   at before:NewResponse#1 assert persist11: request.ProtoMajor >= 1 && !(request.ProtoMajor == 1 && request.ProtoMinor == 0) && len(request.Header["Connection"]) == 0 ==> !request.Close   // prop C10
+//@   note the close decision as the reference takes it (C07), for Connection values that are one token: some value equal to "close" once spaces are trimmed and letters lowered closes; on HTTP/1.0 the connection also closes unless some value is "keep-alive"
+//@   at before:NewResponse#1 assert close11: request.ProtoMajor >= 1 && !(request.ProtoMajor == 1 && request.ProtoMinor == 0) ==> (request.Close == connHas(request, "close", len(request.Header["Connection"])))   // prop C07 C10
+//@   at before:NewResponse#1 assert close10: request.ProtoMajor == 1 && request.ProtoMinor == 0 ==> (request.Close == (connHas(request, "close", len(request.Header["Connection"])) || !connHas(request, "keep-alive", len(request.Header["Connection"]))))   // prop C07 C10
 //@   assigns everything
 //@   loop 1
+//@     invariant !hasClose && !connHas(request, "close", rangeindex + 1) && keepAlive == connHas(request, "keep-alive", rangeindex + 1) && rangeindex < len(request.Header["Connection"])
 //@     invariant ((hasClose || keepAlive) ==> len(request.Header["Connection"]) > 0) && request.ProtoMajor >= 1
 //@     invariant rangeindex >= -1 && gExec == old(gExec) && gServed == old(gServed) && request != nil && request == old(p.request) && p.request == nil && parser.Engine == engine && engine != nil && engine.Handler != nil && parser.Execute != nil && conn != nil
